@@ -2,6 +2,7 @@ import ComposeVerif.Lemmas.Extends
 import ComposeVerif.Lemmas.ExtendsFuel
 import ComposeVerif.Lemmas.ExtendsComplete
 import ComposeVerif.Neg.C05
+import ComposeVerif.Model.ExtendsMerge
 /-!
 # C05 — extends yields base-then-local override, order-independent, cycle-safe
 
@@ -178,6 +179,77 @@ theorem extends_terminates {E : Env} (hE : FuelFree E) {order : List String} {di
       exact h hs
   · simp
 
+/-- the environment never panics: neither the merge step nor the loading of an extended file
+(C01/C04 own those panics; with the C04 merge model the special mergers do panic on shapes the schema
+would reject) -/
+def PanicFree (E : Env) : Prop :=
+  (∀ b svc s, E.extend b svc ≠ .panic s) ∧ (∀ f s, fsLookup f E.fs ≠ some (.panic s))
+
+theorem PanicFree.fuelFree {E : Env} (h : PanicFree E) : FuelFree E :=
+  ⟨fun b s => h.1 b s fuelMark, fun f s hf _ => h.2 f s hf⟩
+
+/-- **accepted or an error, never a crash, never a hang**: in a panic-free environment `ApplyExtends`
+returns normally, with a result or with an error — in every visit order, for every document. -/
+theorem applyExtends_ok_or_err {E : Env} (hp : PanicFree E) {order : List String} {dict : KVs}
+    (hord : ∀ S, lookup "services" dict = some (.map S) → Visits order S) :
+    (∃ out, applyExtendsOrd E order dict = .ok out) ∨ ∃ c, applyExtendsOrd E order dict = .err c := by
+  cases hr : applyExtendsOrd E order dict with
+  | ok out => exact Or.inl ⟨out, rfl⟩
+  | err c => exact Or.inr ⟨c, rfl⟩
+  | panic s =>
+    exfalso
+    have hne := extends_terminates hp.fuelFree hord
+    unfold applyExtendsOrd at hr
+    split at hr
+    · cases hr
+    · rename_i S hS
+      split at hr
+      · cases hr
+      · cases hr
+      · rename_i s' hs
+        injection hr with hr
+        subst hr
+        rcases applyAll_panic_src E _ _ _ _ hs with h | ⟨b, svc, h⟩ | ⟨f, h⟩
+        · subst h
+          apply hne
+          simp [applyExtendsOrd, hS, hs]
+        · exact hp.1 b svc _ h
+        · exact hp.2 f _ h
+    · cases hr
+
+/-- **cyclic chain ⇒ error** (not merely "not accepted") -/
+theorem cycle_is_error {E : Env} (hp : PanicFree E) {order : List String} {dict S : KVs} {n : String}
+    (hS : lookup "services" dict = some (.map S)) (hnn : NoNull S) (hfs : NoNullFS E)
+    (hord : Visits order S) (hn : lookup n S ≠ none) (hc : Cyclic E (S, n)) :
+    ∃ c, applyExtendsOrd E order dict = .err c := by
+  rcases applyExtends_ok_or_err hp (order := order) (dict := dict)
+      (fun S' h' => by rw [hS] at h'; injection h' with h'; injection h' with h'; subst h'; exact hord) with ⟨out, h⟩ | h
+  · exact absurd h (cycle_err hS hnn hfs hord hn hc out)
+  · exact h
+
+/-- **missing base ⇒ error** -/
+theorem missing_base_is_error {E : Env} (hp : PanicFree E) {order : List String} {dict S svc : KVs} {n ref : String} {e : Val}
+    (hS : lookup "services" dict = some (.map S)) (hnn : NoNull S) (hfs : NoNullFS E)
+    (hord : Visits order S) (h1 : lookup n S = some (.map svc)) (h2 : lookup "extends" svc = some e)
+    (h3 : parseExtends e = .ok (ref, none)) (h4 : lookup ref S = none) :
+    ∃ c, applyExtendsOrd E order dict = .err c := by
+  rcases applyExtends_ok_or_err hp (order := order) (dict := dict)
+      (fun S' h' => by rw [hS] at h'; injection h' with h'; injection h' with h'; subst h'; exact hord) with ⟨out, h⟩ | h
+  · exact absurd h (missing_base_err hS hnn hfs hord h1 h2 h3 h4 out)
+  · exact h
+
+/-- **missing file ⇒ error** -/
+theorem missing_file_is_error {E : Env} (hp : PanicFree E) {order : List String} {dict S svc : KVs} {n ref f : String} {e : Val}
+    (hS : lookup "services" dict = some (.map S)) (hnn : NoNull S) (hfs : NoNullFS E)
+    (hord : Visits order S) (h1 : lookup n S = some (.map svc)) (h2 : lookup "extends" svc = some e)
+    (h3 : parseExtends e = .ok (ref, some f))
+    (h4 : fileServices E.fs f = none ∨ ∃ S', fileServices E.fs f = some S' ∧ lookup ref S' = none) :
+    ∃ c, applyExtendsOrd E order dict = .err c := by
+  rcases applyExtends_ok_or_err hp (order := order) (dict := dict)
+      (fun S' h' => by rw [hS] at h'; injection h' with h'; injection h' with h'; subst h'; exact hord) with ⟨out, h⟩ | h
+  · exact absurd h (missing_file_err hS hnn hfs hord h1 h2 h3 h4 out)
+  · exact h
+
 /-- **inherited paths are anchored at the base file.**  The file system hands `ApplyExtends` every
 extended file with its relative paths already resolved against *that file's* directory (`resolve f`);
 a service extending a plain service `ref` of file `f` is therefore `extend` of the base *as resolved
@@ -262,6 +334,41 @@ theorem applyExtends_reject_perm {E : Env} {order₁ order₂ : List String} {di
   obtain ⟨out₁, _, _, h, _⟩ := applyExtends_perm hS hnn hfs hmain h₂ h₁ r₂
   exact r₁ out₁ h
 
+/-! ### the real merge step (`CV.Merge.extendService`, C04's model of `override.ExtendService`) -/
+
+/-- the environment of a real load satisfies the side condition of `extends_terminates` -/
+theorem realEnv_fuelFree (mainFile : String) (fs : FS)
+    (hfs : ∀ f s, fsLookup f fs = some (.panic s) → s ≠ fuelMark) : FuelFree (realEnv mainFile fs) := by
+  refine ⟨fun b s h => ?_, hfs⟩
+  simp only [realEnv, mergeExtend] at h
+  split at h
+  · cases h
+  · simp only [Out.panic.injEq] at h
+    exact absurd h (by decide)
+  · cases h
+  · rename_i s' _
+    by_cases hs : s' = fuelMark
+    · simp [hs, fuelMark] at h
+    · simp only [hs, ↓reduceIte, Out.panic.injEq] at h
+
+/-- termination with the real merge step: whatever the files contain, `ApplyExtends` comes back -/
+theorem extends_terminates_real (mainFile : String) (fs : FS)
+    (hfs : ∀ f s, fsLookup f fs = some (.panic s) → s ≠ fuelMark) {order : List String} {dict : KVs}
+    (hord : ∀ S, lookup "services" dict = some (.map S) → Visits order S) :
+    applyExtendsOrd (realEnv mainFile fs) order dict ≠ .panic fuelMark :=
+  extends_terminates (realEnv_fuelFree mainFile fs hfs) hord
+
+/-- order independence with the real merge step -/
+theorem applyExtends_perm_real (mainFile : String) (fs : FS) {order₁ order₂ : List String} {dict out₁ S : KVs}
+    (hS : lookup "services" dict = some (.map S)) (hnn : NoNull S) (hfs : NoNullFS (realEnv mainFile fs))
+    (hmain : fileServices fs mainFile = none)
+    (h₁ : Visits order₁ S) (h₂ : Visits order₂ S)
+    (r₁ : applyExtendsOrd (realEnv mainFile fs) order₁ dict = .ok out₁) :
+    ∃ out₂ R₁ R₂, applyExtendsOrd (realEnv mainFile fs) order₂ dict = .ok out₂ ∧
+      lookup "services" out₁ = some (.map R₁) ∧ lookup "services" out₂ = some (.map R₂) ∧
+      ∀ n, lookup n R₁ = lookup n R₂ :=
+  applyExtends_perm hS hnn hfs hmain h₁ h₂ r₁
+
 /-! ## non-vacuity: the hypotheses of the theorems above are satisfiable by a non-trivial input
 (the two-file model of `Neg/C05.lean`, visited in the order that succeeds) -/
 
@@ -319,6 +426,13 @@ example : ∃ out, applyExtendsOrd Neg.env ["c", "b"] Neg.dict = .ok out := by
   | ok out => exact ⟨out, rfl⟩
   | err c => rw [hx] at h; cases h
   | panic s => rw [hx] at h; cases h
+
+example : PanicFree Neg.env := by
+  constructor
+  · intro b svc s h; cases h
+  · intro f s h
+    simp only [Neg.env, fsLookup] at h
+    split at h <;> cases h
 
 example : FuelFree Neg.env := by
   constructor
